@@ -381,6 +381,10 @@ class Study(DAG, PickleInterface):
             for dependency in step.run["depends"]:
                 LOGGER.info("{0} is dependent on {1}. Creating edge ("
                             "{1}, {0})...".format(step.real_name, dependency))
+                if re.sub(ALL_COMBOS, "", dependency) == step.real_name:
+                    raise ValueError(
+                        "Step '{}' cannot depend on itself."
+                        .format(step.real_name))
                 if "*" not in dependency:
                     self.add_edge(dependency, step.real_name)
                 else:
